@@ -349,21 +349,15 @@ Proof.
   inversion Hok; subst. constructor; [assumption|apply gokr_choice_ok|now apply IH].
 Qed.
 
-Lemma rdev_agree o mode : o_devices o = o_specials o -> sender_has_rdev o mode = receiver_has_rdev o mode.
-Proof.
-  intros E. unfold sender_has_rdev, receiver_has_rdev. rewrite <- E.
-  destruct (o_devices o), (is_dev mode), (is_special mode); reflexivity.
-Qed.
+Lemma rdev_agree o mode : sender_has_rdev o mode = receiver_has_rdev o mode.
+Proof. reflexivity. Qed.
 
 Theorem send_recv_file_list o es uids gids ioerr rest :
-  o_devices o = o_specials o ->
   Forall (entry_ok o) es -> Forall id_ok uids -> Forall id_ok gids -> i32 ioerr ->
   recv_file_list o (send_file_list o es uids gids ioerr ++ rest)
   = inl (mkFR (sort_entries es) (if o_uid o then uids else []) (if o_gid o then gids else []) ioerr rest).
 Proof.
-  intros Hds Hes Hu Hg Hio. unfold send_file_list. rewrite <- app_assoc.
-  rewrite recv_file_list_enc; auto.
-  - rewrite map_map. cbn [snd]. now rewrite map_id.
-  - now apply gokr_chain.
-  - intros c e _. now apply rdev_agree.
+  intros Hes Hu Hg Hio. unfold send_file_list. rewrite <- app_assoc.
+  rewrite recv_file_list_enc; [|now apply gokr_chain|intros c e _; apply rdev_agree|exact Hu|exact Hg|exact Hio].
+  rewrite map_map. cbn [snd]. now rewrite map_id.
 Qed.
